@@ -276,7 +276,14 @@ def one_config(ctx, rep, cfg):
     def _masks_of(f):
         out = []
         cl = [prog.fns[k] for k in ctx.e1(cfg).cg.closures_of.get(f.key, [])]
-        for c in [f] + cl:
+        # the masking may live in a private helper of the module (`self.untagged_ptr()`): follow calls into `repr` one level
+        helpers = []
+        for _bi, t_ in mir.iter_calls(f):
+            g_ = prog.fns.get("jiff::" + t_.get("path", ""))
+            if g_ is not None and g_.path.startswith(REPR + "::") and g_.path.split("::")[-1] not in GETTER_TAG and g_ is not f:
+                helpers.append(g_)
+                helpers += [prog.fns[k] for k in ctx.e1(cfg).cg.closures_of.get(g_.key, [])]
+        for c in [f] + cl + helpers:
             nots = {}
             for b in c.blocks:
                 for s_ in b["st"]:
